@@ -42,3 +42,7 @@ claim("C19",
       "Decides the structural clauses on all paths: catch_panic decrements the level exactly once, unconditionally, after catch_unwind and before inspecting its result, iff start_catching() incremented it; disabled catching runs f transparently; level/enabled cells have no other writers and abort on overflow; all state but the hook flag is thread-local; the hook records iff level > 0, else forwards to the hook captured before installation or aborts; the recorded text contains the payload. The install race and backtrace text are not decided.",
       TB + " std::panic::catch_unwind/set_hook semantics are trusted.",
       "HIR path/pairing rule + who-may-write census of thread-locals")
+claim("C08",
+      "Decides the typed-store invariant inductively over all writers (so for every operation history): all functions writing ExecutionContext state fit a reviewed writer pattern; the two setters store only under a dominating full `Type == Type` test of the stored value against the field's type (after the scheme-identity test), return the replaced value and write nothing on failure; execute() runs the closure only under scheme identity (Arc::ptr_eq); every site where a value enters Array/Map storage is typed, guarded or an identity copy; the borrow guard restores exactly what it took; clear() empties all.",
+      TB + " Field privacy is enforced by rustc (witnesses in the thorough tier).",
+      "who-may-write census + guard-dominance rules over HIR")
